@@ -32,6 +32,9 @@ inductive Expr
   | err
   | call (f : Nat) (args : List Expr)
   | wideRatio (ns ds : List Expr)
+  | substring (s a b : Expr)          -- Substring(s, start, end)  = s[start:end]
+  | extract (s a l : Expr)            -- Extract(s, start, length) = s[start:start+length]
+  | suffix (s a : Expr)               -- Suffix(s, start)          = s[start:]
   | note (e : Option Expr)            -- Comment / Pragma wrapper: no semantics of its own
   | nonce (b : Bytes) (e : Expr)      -- push-and-pop of the nonce bytes, then `e`
   deriving Repr, Inhabited
@@ -208,9 +211,23 @@ mutual
                  else (.fail (.logic "WideRatio overflow"), w1)
                | _, _ => (.fail (.logic "WideRatio product overflow"), w1)))
          | r => r)
+      | .substring s a b => evalOp env fuel "substring3" [s, a, b] w
+      | .extract s a l => evalOp env fuel "extract3" [s, a, l] w
+      | .suffix s a => evalOp env fuel "suffix" [s, a] w
       | .note none => (.vals [], w)
       | .note (some e) => eval env fuel e w
       | .nonce _ e => eval env fuel e w
+
+  /-- operands left to right, then the opcode's meaning -/
+  def evalOp (env : Env) : Nat → String → List Expr → World → Res × World
+    | 0, _, _, w => (.fail (.unmodelled "fuel"), w)
+    | fuel+1, op, args, w =>
+      match evalArgs env fuel args w [] with
+      | (.vals st, w1) =>
+        (match execPrim env.cx op [] w1 st with
+         | .ok (st', w2) => (.vals st', w2)
+         | .error f => (.fail f, w1))
+      | r => r
 
   /-- evaluate operands left to right, accumulating the operand stack (head = last) -/
   def evalArgs (env : Env) : Nat → List Expr → World → List Val → Res × World
